@@ -510,6 +510,24 @@ def det2(ctx, c):
 
 def det3(ctx, c):
     _emit(ctx, c, "DET-3")
+    # a default argument that is an OBJECT of a repository class with state of its own is built once, when the function is defined: every call that does not pass
+    # the argument works on that one object
+    repo = ctx.repo
+    for f in repo.all_funcs():
+        a = f.node.args
+        params = a.posonlyargs + a.args
+        defaults = [None] * (len(params) - len(a.defaults)) + list(a.defaults)
+        for prm, d in list(zip(params, defaults)) + list(zip(a.kwonlyargs, a.kw_defaults)):
+            if isinstance(d, ast.Call) and isinstance(d.func, ast.Name) and d.func.id in repo.classes:
+                cl = repo.classes[d.func.id]
+                bases = [b.split(".")[-1] for b in cl.bases]
+                init = repo.lookup(cl, "__init__")
+                stateful = init is not None and any(isinstance(n_, ast.Assign) and any(U(t_).startswith("self.") for t_ in n_.targets) and is_mutable_expr(n_.value) for n_ in ast.walk(init.node))
+                used = [x for x in ast.walk(f.node) if isinstance(x, ast.Call) and isinstance(x.func, ast.Attribute) and isinstance(x.func.value, ast.Name) and x.func.value.id == prm.arg]
+                if stateful and used and not any(b in ("NamedTuple", "Enum", "IntEnum") for b in bases):
+                    c.finding("%s:%s" % (f.q, prm.arg), "the default of %s is one %s object shared by all calls" % (prm.arg, d.func.id),
+                              "%s declares `%s=%s`: the object is created once, when the function is defined, and %s works on it (`%s`) - what one call leaves in it (symbols, statements, files) "
+                              "is there for the next call in the same process" % (f.q, prm.arg, U(d), f.q, U(used[0])[:40]), repo.loc(f, d))
 
 
 def det5(ctx, c):
@@ -572,4 +590,28 @@ def det4(ctx, c):
             c.ok("Program.%s" % meth, "only reads the program", repo.loc(f, f.node))
 
 
-RULES = {"DET-1": det1, "DET-2": det2, "DET-3": det3, "DET-4": det4, "DET-5": det5, "DET-6": det6}
+def det4_values(ctx, c):
+    """the rendering accessors of the value classes are functions of the value and their arguments: one that stores into the object (a memo) answers later calls
+    from the first call's arguments - the same address object is asked for 4 digits by the listing and for its own width by the symbol table"""
+    repo = ctx.repo
+    n = 0
+    for cn, cl in repo.classes.items():
+        if not cn.endswith("Value"):
+            continue
+        for mn, f in cl.methods.items():
+            if not (mn in ("hex", "hex_len", "byte_len", "high_byte", "low_byte", "ascii", "get_negative") or mn.startswith("is_")):
+                continue
+            n += 1
+            stores = [x for x in ast.walk(f.node) if isinstance(x, (ast.Assign, ast.AugAssign)) for t_ in (x.targets if isinstance(x, ast.Assign) else [x.target])
+                      if isinstance(t_, (ast.Attribute, ast.Subscript)) and U(t_).startswith("self.")]
+            if stores:
+                c.finding("%s.%s" % (cn, mn), "an accessor stores into the value (%s)" % U(stores[0])[:40],
+                          "%s.%s does `%s`: what it returns later depends on how it was called first (with which width), so the listing, the symbol table and the image - which ask the "
+                          "same object with different arguments, in an order that depends on the command line - no longer agree with each other or between runs" % (cn, mn, U(stores[0])[:60]),
+                          repo.loc(f, stores[0]))
+    c.floor("value accessors examined", n, 20)
+    if n:
+        c.ok("value accessors", "%d accessors only read the value" % n, "")
+
+
+RULES = {"DET-1": det1, "DET-2": det2, "DET-3": det3, "DET-4": (lambda ctx, c: (det4(ctx, c), det4_values(ctx, c))), "DET-5": det5, "DET-6": det6}
